@@ -3399,6 +3399,11 @@ class ServiceRequestingTransport(Transport):
             # AuthHandler.wait_for_response, re: 1/10 of a second. Could
             # presumably be smaller, but seems unlikely this period is going to
             # be "too long" for any code doing ssh networking...
+            if not self.active:
+                e = self.get_exception()
+                if e is None:
+                    e = SSHException("Connection lost before ssh-userauth")
+                raise e
             time.sleep(0.1)
         self.auth_handler = self.get_auth_handler()
 
